@@ -265,9 +265,13 @@ pub fn make_dt(zone_id: &str, secs: i64, nanos: u32) -> RVal {
 
 pub fn datetime(cfg: GenCfg) -> BoxedStrategy<RVal> {
     if cfg.wf {
+        let n = zones::wide_scope_zones().len();
         prop_oneof![
-            5 => datetime_in_scope(),
-            2 => (T_MIN..T_MAX, frac_nanos()).prop_map(|(s, n)| make_dt("UTC", s, n)),
+            10 => datetime_in_scope(),
+            4 => (T_MIN..T_MAX, frac_nanos()).prop_map(|(s, n)| make_dt("UTC", s, n)),
+            // the whole range of four digit years, incl. local mean time offsets with seconds before standard time
+            1 => (0..n, zones::T_WIDE_MIN..zones::T_WIDE_MAX, frac_nanos()).prop_map(|(zi, s, n)| make_dt(zones::wide_scope_zones()[zi].id, s, n)),
+            1 => (0..n, -5_000_000_000i64..T_MIN, frac_nanos()).prop_map(|(zi, s, n)| make_dt(zones::wide_scope_zones()[zi].id, s, n)),
         ]
         .boxed()
     } else {
